@@ -936,6 +936,7 @@ func (x *Exec) runLoop(st *State, ls *loopSpec, k cont) {
 		if s.dead {
 			return
 		}
+		x.anchor(s, fmt.Sprintf("end loop %d", ls.ord), ls.bodyPos, ls.ord)
 		if ls.post != nil {
 			ls.post(s)
 		}
@@ -968,6 +969,7 @@ func (x *Exec) runLoop(st *State, ls *loopSpec, k cont) {
 	if ls.pre != nil {
 		ls.pre(b)
 	}
+	x.anchor(b, fmt.Sprintf("in loop %d", ls.ord), ls.bodyPos, ls.ord)
 	x.block(b, ls.body, backEdge)
 	if len(x.brk) != nb || len(x.cont) != nc {
 		fail("internal: unbalanced control stack")
